@@ -62,11 +62,12 @@ LEVEL_NOTE = ('Trusted: mc/env_fs.py (LoggedFS op log; its replay model is verif
               'power-loss reordering, concurrent writers and interrupts at '
               'points that are not file-system events or trial boundaries (arbitrary bytecode boundaries) are not '
               'covered. Quick tier: representative byte offsets only. Depth 2 starts from one representative per '
-              '(file status, last completed save) class of first-stop states and uses representative offsets.')
+              '(file status, last completed save) class of first-stop states and uses representative offsets '
+              '(JSON token boundaries to depth 2) for both stops.')
 RULE = ('cases = histories (container, n1<=n2, save_frequency, spec2 in {same,+rate,+size}) x stop family x shard; '
         'within a case every stop point of the family is executed (thorough: every byte offset; quick: offsets '
         '{0,1,len-1,len} + every JSON token boundary to depth 3 / every gzip write boundary and the middle of the '
-        'deflate block); a sub-case is the state (disk image, last completed save, trials produced so far) reached '
+        'deflate block; quick interrupts in a JSON text: token boundaries to depth 2); a sub-case is the state (disk image, last completed save, trials produced so far) reached '
         'by a stop; it is non-trivial when the sandbox holds at least one file or a completed save exists, and '
         'distinct by the SHA-1 of that state within its history (crash images: counted once over the whole run '
         'whichever shard executes them; live stops: counted only by the shard that owns the digest, which can '
@@ -82,12 +83,13 @@ ASSUMPTIONS = [
 BOUNDS = {
     'quick': {'n_pairs': [[3, 3], [3, 5], [4, 6]], 'save_frequency': [1, 2, 3],
               'spec2': ['same', 'rate', 'size'], 'containers': ['json', 'gz'], 'depth': 1,
-              'kill_offsets': 'classes(json depth 3)', 'interrupt_inside': 'classes',
+              'kill_offsets': 'classes(json depth 3)',
+              'interrupt_points': 'classes(json depth 2; every gzip write boundary) + every non-write event',
               'plant': ['rate', 'size', 'noise', 'decoder', 'overlap']},
     'thorough': {'n_pairs': [[3, 3], [3, 5], [4, 6]], 'save_frequency': [1, 2, 3],
                  'spec2': ['same', 'rate', 'size'], 'containers': ['json', 'gz'], 'depth': 2,
                  'kill_offsets': 'all', 'interrupt_inside': {'json': 'mid of every write', 'gz': 'all'},
-                 'depth2_offsets': 'classes(json depth 3)', 'depth2_n3': 'n2+1',
+                 'depth2_offsets': 'classes(json depth 2)', 'depth2_n3': 'n2+1',
                  'plant': ['rate', 'size', 'noise', 'decoder', 'overlap']},
 }
 BUDGET_S = {'quick': 900, 'thorough': 7200}
@@ -278,8 +280,17 @@ class _Null:
 
 
 # ----------------------------------------------------------------------------- one live execution
-def execute(root, container, variant, n, f, serial, inject=None, trace_disk=False):
-    """One `panqec run`-equivalent execution in sandbox `root` (its files are the starting state)."""
+class _NoPatch:
+    def __enter__(self):
+        return self
+
+    def __exit__(self, *exc):
+        return False
+
+
+def execute(root, container, variant, n, f, serial, inject=None, trace_disk=False, observe=True):
+    """One `panqec run`-equivalent execution in sandbox `root` (its files are the starting state).
+    observe=False: the file system is not instrumented (a final restart only needs the trial counter)."""
     from panqec.simulation import read_input_dict
     fs = E.LoggedFS(root, trace_disk=trace_disk)
     fs.inject = inject
@@ -294,7 +305,7 @@ def execute(root, container, variant, n, f, serial, inject=None, trace_disk=Fals
     gc_was_on = gc.isenabled()
     gc.disable()
     try:
-        with DetEnv(box), fs:
+        with DetEnv(box), (fs if observe else _NoPatch()):
             try:
                 batch = read_input_dict(copy.deepcopy(spec_of(variant)), output_file=out, save_frequency=f)
                 for sim in batch:
@@ -409,7 +420,7 @@ def stops_of_run(sb, container, variant, n, f, start, families, tier_offsets, se
         raise E.FSModelError('replay of the op log does not reproduce the sandbox at the end of the run')
     saves = E.completed_saves(log, out_rel)
     sess = E.sessions(log)
-    classes = {h: E.offset_classes(s, json_depth=3) for h, s in sess.items()}
+    classes = {h: E.offset_classes(s, json_depth=tier_offsets.get('json_depth', 3)) for h, s in sess.items()}
     lineage_full = merge_lineage(lineage0, probe['mem'])
 
     if 'kill' in families:
@@ -469,7 +480,11 @@ def stops_of_run(sb, container, variant, n, f, start, families, tier_offsets, se
                 live.append(('between-trials', E.Injection(ev['n'], 'before', 0, E.HardStop), ev['p']))
     if 'interrupt' in families:
         mode = tier_offsets['interrupt'][container]
-        pts = E.interrupt_points(log, classes if mode == 'classes' else None, mode)
+        iclasses = classes
+        if 'interrupt_json_depth' in tier_offsets:
+            iclasses = {h: E.offset_classes(x, json_depth=tier_offsets['interrupt_json_depth'])
+                        for h, x in sess.items()}
+        pts = E.interrupt_points(log, iclasses if mode == 'classes' else None, mode)
         for (n_ord, phase, off, kind) in pts:
             live.append(('interrupt', E.Injection(n_ord, phase, off, KeyboardInterrupt), kind))
     for stop, inj, kind in live:
@@ -524,7 +539,7 @@ def restart_and_judge(sb, container, variant2, n2, f, state, serial):
     """Restart on the stop state; returns (violations [(kind, exc, detail)], outcome digest, record)."""
     out_rel = out_name(container)
     d = sb.fresh(state['image'])
-    rec = execute(d, container, variant2, n2, f, serial)
+    rec = execute(d, container, variant2, n2, f, serial, observe=False)
     image = E.read_image(d)
     sb.drop(d)
     viol = judge(container, variant2, n2, parse_save(state['b0'], container) or {}, state['lineage'],
@@ -635,14 +650,15 @@ def planted_file(sb, container, foreign_variant, n_p, f):
 
 # ----------------------------------------------------------------------------- cases
 TIER_OFFSETS = {
-    'quick': {'kill': 'classes', 'interrupt': {'json': 'classes', 'gz': 'classes'}},
+    'quick': {'kill': 'classes', 'interrupt': {'json': 'classes', 'gz': 'classes'}, 'interrupt_json_depth': 2},
     'thorough': {'kill': 'all', 'interrupt': {'json': 'mid', 'gz': 'all'}},
 }
+DEPTH2_OFFSETS = {'kill': 'classes', 'interrupt': {'json': 'classes', 'gz': 'classes'}, 'json_depth': 2}
 SHARDS = {
-    'quick': {('kill', 'json'): 4, ('kill', 'gz'): 1, ('interrupt', 'json'): 4, ('interrupt', 'gz'): 1,
+    'quick': {('kill', 'json'): 2, ('kill', 'gz'): 1, ('interrupt', 'json'): 1, ('interrupt', 'gz'): 1,
               ('between', 'json'): 1, ('between', 'gz'): 1},
     'thorough': {('kill', 'json'): 16, ('kill', 'gz'): 4, ('interrupt', 'json'): 8, ('interrupt', 'gz'): 4,
-                 ('between', 'json'): 1, ('between', 'gz'): 1, ('depth2', 'json'): 6, ('depth2', 'gz'): 3},
+                 ('between', 'json'): 1, ('between', 'gz'): 1, ('depth2', 'json'): 4, ('depth2', 'gz'): 2},
 }
 
 
@@ -802,7 +818,7 @@ def _status_class(st, container):
 def _eval_depth2(case, sb):
     acc = _Acc(case)
     container, f = case['container'], case['save_frequency']
-    q = TIER_OFFSETS['quick']
+    q = DEPTH2_OFFSETS
     reps = {}
     for st in stops_of_run(sb, container, 'base', case['n1'], f, ({}, None, {}),
                            {'kill', 'between', 'interrupt'}, q, serial=0):
